@@ -54,8 +54,9 @@ def build(rng, gen):
     if not cands:
         return root, pairs
     k = 0
-    for _ in range(rng.randint(1, 8)):
-        src = rng.choice(cands)
+    one_source = rng.choice(cands) if rng.random() < 0.15 else None       # (sometimes a dozen references to one and the same element)
+    for _ in range(rng.choice([1, 2, 3, 5, 8, 13]) if one_source is None else rng.choice([10, 11, 13])):
+        src = one_source or rng.choice(cands)
         rname = mrule.node_mappings[src.name]
         if "id" not in src.attributes:
             k += 1
